@@ -9,10 +9,12 @@ store `objs` represent the history `whole`, one section per (sub-)revision; its 
 -/
 import PdfVerif.Lemmas.Xref
 import PdfVerif.Lemmas.XrefBytes
+import PdfVerif.Lemmas.XrefTable
+import PdfVerif.Lemmas.XrefScan
 
 namespace PdfVerif.Props.C02
 
-open PdfVerif PdfVerif.Xref
+open PdfVerif PdfVerif.Xref PdfVerif.Gen.Xref
 
 /-! ## Newest definition wins -/
 
@@ -83,7 +85,7 @@ range-by-range reading of `/Index` assigns to `n`. -/
 theorem C02_xrefstm_entry (ranges : List (Nat × Nat)) (w1 w2 w3 : Nat) (rows : List Row)
     (hf : ∀ r ∈ rows, FitsRow w1 w2 w3 r) (hlen : sumCounts ranges ≤ rows.length) (n : Nat) :
     (XStream.mk ranges w1 w2 w3 (encodeRows w1 w2 w3 rows)).getPos n =
-      (rowSpec ranges rows n).bind entryOfRow := by
+      (rowSpec ranges rows n).bind rowEntry := by
   have hspec := findIndex_rowSpec ranges rows n 0
   simp only [List.drop_zero] at hspec
   rw [← hspec]
@@ -114,10 +116,228 @@ theorem C02_objids_pinned_cex :
     objidsPinned x x.ranges = [6] ∧ objidsSpec x.ranges rows = [5, 6] ∧ x.getObjids = [5, 6] := by
   decide
 
-example : FitsRow 0 2 0 (1, 515, 0) := ⟨Or.inl ⟨rfl, rfl⟩, Or.inr ⟨by decide, by decide⟩, Or.inl ⟨rfl, rfl⟩⟩
+example : FitsRow 0 2 0 (1, 515, 0) := ⟨Or.inl ⟨rfl, by decide⟩, Or.inr ⟨by decide, by decide⟩, Or.inl ⟨rfl, by decide⟩⟩
 
 example : (XStream.mk [(3, 1), (7, 2)] 0 2 0 (encodeRows 0 2 0 [(1, 515, 0), (1, 9, 0), (1, 300, 0)])).getPos 8
     = some ⟨none, 300, 0⟩ := by decide
+
+/-! ## The regenerated fragments mean what ISO 32000-1 says
+
+`Gen/Xref.lean` is rewritten from the Python source on every run; these theorems fail to check
+when one of the translated fragments changes its meaning. -/
+
+/-- The `if f1 == 1 … elif f1 == 2 …` chain of `get_pos` is Table 18 of ISO 32000-1. -/
+theorem C02_row_types (r : Nat × Nat × Nat) : rowEntry r = specRowEntry r := by
+  obtain ⟨t, a, b⟩ := r
+  match t with
+  | 0 => rfl
+  | 1 => rfl
+  | 2 => rfl
+  | n + 3 => simp [rowEntry, entryOfRow, specRowEntry]
+
+/-- `get_objids` counts exactly the row types that `get_pos` resolves. -/
+theorem C02_inuse_types (t a b : Nat) : inUseType t = (specRowEntry (t, a, b)).isSome := by
+  match t with
+  | 0 => rfl
+  | 1 => rfl
+  | 2 => rfl
+  | n + 3 => simp [inUseType, specRowEntry]
+
+/-- Member `index` of an object stream with `N` members stands after the `N` pairs of integers. -/
+theorem C02_objstm_index (n index : Nat) : objstmIndex n index = 2 * n + index := by
+  simp [objstmIndex]; omega
+
+/-- Field defaults (7.5.8.2: a zero-width type field means type 1; other fields default to 0), the
+`/Index` default `[0 Size]`, and both readers of the type field agree. -/
+theorem C02_defaults (size : Nat) :
+    typeDefault = 1 ∧ field2Default = 0 ∧ field3Default = 0 ∧ objidsTypeDefault = typeDefault ∧
+    defaultIndex size = [0, size] := by
+  refine ⟨rfl, rfl, rfl, rfl, rfl⟩
+
+/-- Keywords and field shapes of the classic table, and the chaining order (7.5.8.4: the
+table of a hybrid file is consulted first, then its `XRefStm`, then `Prev`). -/
+theorem C02_literals :
+    kwTrailer = "trailer".toList.map (fun c => c.toNat.toUInt8) ∧
+    kwStartxref = "startxref".toList.map (fun c => c.toNat.toUInt8) ∧
+    inUseMarker = [110] ∧ fieldSep = 32 ∧ headerFields = 2 ∧ entryFields = 3 ∧
+    chainOrder = ["XRefStm", "Prev"] := by
+  decide
+
+/-! ## Loaders invert the writers, byte for byte -/
+
+/-- `table_load`: `read_xref_from` + `PDFXRef.load` on the text of ANY classic table
+(any number of subsections, any entries, every EOL style of header and entry lines, `trailer`
+alone or followed by the dictionary on its line) returns exactly the in-use entries written
+— `f` lines skipped, numbering `start + i` — and stops on the `trailer` line. -/
+theorem C02_table_load (pre post : Bytes) (eol : LineEol) (ee : EntEol) (subs : List Sub)
+    (hf : ∀ sb ∈ subs, SubFits sb) (hpost : TrailerLine post) :
+    tableLoad (pre ++ (eol.bytes ++ (renderTable eol ee subs ++ (kwTrailer ++ post)))) pre.length =
+      .ok (insSubs subs [], pre.length + eol.bytes.length + (renderTable eol ee subs).length) :=
+  tableLoad_renderTable pre post eol ee subs hf hpost
+
+/-- …and `get_pos` on the loaded table answers with the last in-use line written for `n`. -/
+theorem C02_table_lookup (subs : List Sub) (n : Nat) :
+    (Section.table (insSubs subs [])).getPos n = specSubs subs (n : Int) none := by
+  simp [Section.getPos, lookup_insSubs, lookupOff]
+
+/-- The `trailer` keyword line as the writer emits it satisfies `TrailerLine`. -/
+theorem C02_trailer_line (eol : LineEol) (mid y : Bytes) (hm : noEol mid) (hy : StartsNonLF y) :
+    TrailerLine (mid ++ (eol.bytes ++ y)) := trailerLine_eol eol mid y hm hy
+
+def flattenRanges : List (Nat × Nat) → List Nat
+  | [] => []
+  | (s, c) :: rest => s :: c :: flattenRanges rest
+
+theorem choplist2_flatten (ranges : List (Nat × Nat)) : choplist2 (flattenRanges ranges) = ranges := by
+  induction ranges with
+  | nil => rfl
+  | cons r rest ih => obtain ⟨s, c⟩ := r; simp [flattenRanges, choplist2, ih]
+
+theorem flatten_even (ranges : List (Nat × Nat)) : (flattenRanges ranges).length % 2 = 0 := by
+  induction ranges with
+  | nil => rfl
+  | cons r rest ih => obtain ⟨s, c⟩ := r; simp [flattenRanges]; omega
+
+/-- `stream_load`: `PDFXRefStream.load` + `get_pos` + `get_objids` on the dictionary entries
+`/W [w1 w2 w3]`, `/Index` (any number of ranges) and the encoded rows give back the written rows,
+end to end. -/
+theorem C02_stream_load (size : Nat) (ranges : List (Nat × Nat)) (w1 w2 w3 : Nat) (rows : List Row)
+    (hf : ∀ r ∈ rows, FitsRow w1 w2 w3 r) (hlen : sumCounts ranges ≤ rows.length) :
+    ∃ x, xsLoad size (some (flattenRanges ranges)) [w1, w2, w3] (encodeRows w1 w2 w3 rows) = .ok x ∧
+      (∀ n, x.getPos n = (rowSpec ranges rows n).bind specRowEntry) ∧
+      x.getObjids = objidsSpec ranges rows := by
+  refine ⟨⟨ranges, w1, w2, w3, encodeRows w1 w2 w3 rows⟩, ?_, ?_, ?_⟩
+  · have h := flatten_even ranges
+    simp [xsLoad, choplist2_flatten, h]
+  · intro n
+    rw [C02_xrefstm_entry ranges w1 w2 w3 rows hf hlen n]
+    congr 1
+    funext r
+    exact C02_row_types r
+  · exact C02_xrefstm_objids ranges w1 w2 w3 rows hf hlen
+
+/-- Without `/Index` the rows are those of objects `0 … Size-1`. -/
+theorem C02_stream_load_default (size w1 w2 w3 : Nat) (rows : List Row)
+    (hf : ∀ r ∈ rows, FitsRow w1 w2 w3 r) (hlen : size ≤ rows.length) (n : Nat) :
+    ∃ x, xsLoad size none [w1, w2, w3] (encodeRows w1 w2 w3 rows) = .ok x ∧
+      x.getPos n = (if n < size then rows[n]? else none).bind specRowEntry := by
+  refine ⟨⟨[(0, size)], w1, w2, w3, encodeRows w1 w2 w3 rows⟩, ?_, ?_⟩
+  · simp [xsLoad, defaultIndex, choplist2]
+  · rw [C02_xrefstm_entry [(0, size)] w1 w2 w3 rows hf (by simp [sumCounts]; omega) n]
+    have : rowEntry = specRowEntry := funext C02_row_types
+    rw [this]
+    by_cases h : n < size <;> simp [rowSpec, h]
+
+/-- `hybrid_load` / chaining: from the table of a hybrid revision `read_xref_from` appends the
+table, then the section at `XRefStm`, then the section at `Prev` — and a position met twice
+(circular `Prev`) is not loaded again. -/
+theorem C02_chain_order (ph : Phys) (p1 p2 p3 : Nat) (d1 d2 d3 : SecDesc) (s1 s2 s3 : Section)
+    (root : Option Nat) (info : Option Nat) (fuel : Nat)
+    (h1 : lookupNat ph.secs p1 = some d1) (h2 : lookupNat ph.secs p2 = some d2) (h3 : lookupNat ph.secs p3 = some d3)
+    (l1 : loadSection ph d1 = .ok (s1, ⟨some p3, some p2, root, info⟩))
+    (l2 : loadSection ph d2 = .ok (s2, ⟨none, none, none, none⟩))
+    (l3 : loadSection ph d3 = .ok (s3, ⟨some p1, none, root, info⟩))
+    (d12 : p1 ≠ p2) (d13 : p1 ≠ p3) (d23 : p2 ≠ p3) :
+    (readXrefFrom ph (fuel + 3) p1 ([], [])).map (fun r => r.1.map (·.1)) = .ok [s1, s2, s3] := by
+  have n21 : ¬ p2 = p1 := Ne.symm d12
+  have n31 : ¬ p3 = p1 := Ne.symm d13
+  have n32 : ¬ p3 = p2 := Ne.symm d23
+  simp [readXrefFrom, chainOrder, Trailer.get, h1, h2, h3, l1, l2, l3, List.foldlM, n21, n31, n32, d12, d13, d23,
+    bind, Except.bind, Except.map, pure, Except.pure]
+
+
+/-- Non-vacuity for the loaders: `0 2` (free head, object 1) and `5 1`, CR-only line ends, entries
+ending in space-CR, `trailer` followed by the dictionary on the same line. -/
+def exSubs : List Sub := [⟨0, 1, 1, [⟨0, 65535, false⟩, ⟨15, 0, true⟩]⟩, ⟨5, 2, 1, [⟨70, 3, true⟩]⟩]
+
+example : ∀ sb ∈ exSubs, SubFits sb := by
+  intro sb hsb
+  simp only [exSubs, List.mem_cons, List.not_mem_nil, or_false] at hsb
+  rcases hsb with rfl | rfl <;> simp [SubFits, EntryFits]
+
+example : TrailerLine ([32, 60, 60, 62, 62] ++ (LineEol.cr.bytes ++ [115])) :=
+  C02_trailer_line .cr [32, 60, 60, 62, 62] [115] (by intro b hb; revert b; decide) ⟨115, [], rfl, by decide⟩
+
+example : (match tableLoad ([120, 114, 101, 102] ++ (LineEol.cr.bytes ++ (renderTable .cr .spCr exSubs ++
+      (kwTrailer ++ ([32, 60, 60, 62, 62] ++ (LineEol.cr.bytes ++ [115])))))) 4 with
+    | .ok (offs, tpos) => offs == [((1 : Int), (⟨none, 15, 0⟩ : Entry)), (5, ⟨none, 70, 3⟩)] && tpos == 4 + 1 + 69
+    | .error _ => false) = true := by decide
+
+
+
+/-- From the written lines to `Rep`: a loaded classic table represents revision `r` as soon as
+the written subsections do (last in-use line per number leads to `r`'s value) — the hypothesis of
+`C02_newest_wins` follows from what the writer wrote, not from what the loader returned. -/
+theorem C02_table_represents (whole : History) (objs : List (Nat × Nat × Nat × Val)) (subs : List Sub) (r : Revision)
+    (h : ∀ n, match r.lookup n with
+              | none => specSubs subs (n : Int) none = none
+              | some v => ∃ e, specSubs subs (n : Int) none = some e ∧ entryOK whole objs n v e = true) :
+    SecRep whole objs (.table (insSubs subs [])) r := by
+  intro n
+  have := h n
+  rw [← C02_table_lookup subs n] at this
+  exact this
+
+/-- The same for a cross-reference stream section written as `W`, `/Index` ranges and rows. -/
+theorem C02_stream_represents (whole : History) (objs : List (Nat × Nat × Nat × Val)) (ranges : List (Nat × Nat))
+    (w1 w2 w3 : Nat) (rows : List Row) (r : Revision)
+    (hf : ∀ row ∈ rows, FitsRow w1 w2 w3 row) (hlen : sumCounts ranges ≤ rows.length)
+    (h : ∀ n, match r.lookup n with
+              | none => (rowSpec ranges rows n).bind specRowEntry = none
+              | some v => ∃ e, (rowSpec ranges rows n).bind specRowEntry = some e ∧ entryOK whole objs n v e = true) :
+    SecRep whole objs (.stream ⟨ranges, w1, w2, w3, encodeRows w1 w2 w3 rows⟩) r := by
+  intro n
+  have := h n
+  have hrow : rowEntry = specRowEntry := funext C02_row_types
+  simp only [Section.getPos]
+  rw [C02_xrefstm_entry ranges w1 w2 w3 rows hf hlen n, hrow]
+  exact this
+
+/-! ## Termination of the line loops, and the body scan -/
+
+/-- `PDFXRef.load` terminates within one iteration per byte: the fuel of the model is never
+the reason for its answer. -/
+theorem C02_table_fuel (data : Bytes) (afterKw : Nat) : tableLoad data afterKw ≠ .error .recursion :=
+  tableLoad_fuel data afterKw
+
+/-- The same for the body scan: beyond `bytes left`, more fuel changes nothing. -/
+theorem C02_fallback_fuel (data : Bytes) (ends : List (Nat × Nat × Val)) (fuel pos : Nat)
+    (offs : List (Int × Entry)) (h : data.length < pos + fuel) :
+    fallbackLoop data ends (fuel + 1) pos offs = fallbackLoop data ends fuel pos offs :=
+  fallbackLoop_fuel data ends fuel pos offs h
+
+/-- `C02_fallback`: for a body made of plain lines and indirect objects whose headers stand at
+line starts (and no other line looks like a header or starts with `trailer`), the body scan
+registers every object at its true offset, in file order, and stops on the `trailer` line. -/
+theorem C02_fallback (ends : List (Nat × Nat × Val)) (items : List Item) (tail : Bytes)
+    (hok : ItemsOK ends 0 items tail)
+    (htail : ∃ l k, takeLine tail = some (l, k) ∧ startsWith l kwTrailer = true) :
+    fallbackLoad (itemsBytes items ++ tail) ends = .ok (scanSpec 0 items [], some (itemsBytes items).length) :=
+  fallbackLoad_items ends items tail hok htail
+
+/-- The header the writer emits (`n g obj` + EOL, any digit widths) is recognised by the cue
+with its own numbers; the EOL-only line between objects is a plain line. -/
+theorem C02_cue_header (w1 w2 n g : Nat) (hw1 : 0 < w1) (hw2 : 0 < w2) (hn : n < 10 ^ w1) (hg : g < 10 ^ w2)
+    (c : UInt8) (t : Bytes) (hc : isWordByte c = false) :
+    matchCue (renderDec w1 n ++ 32 :: (renderDec w2 g ++ 32 :: 111 :: 98 :: 106 :: c :: t)) = some (n, g) :=
+  matchCue_header w1 w2 n g hw1 hw2 hn hg c t hc
+
+/-- Non-vacuity: `%A⏎ 1 0 obj⏎ 7⏎endobj ⏎ 12 0 obj⏎ 8⏎endobj ⏎ trailer⏎` -/
+def exItems : List Item :=
+  [.line [37, 65, 10],
+   .obj 1 0 [49, 32, 48, 32, 111, 98, 106, 10] [55, 10, 101, 110, 100, 111, 98, 106],
+   .line [10],
+   .obj 12 0 [49, 50, 32, 48, 32, 111, 98, 106, 10] [56, 10, 101, 110, 100, 111, 98, 106],
+   .line [10]]
+def exEnds : List (Nat × Nat × Val) := [(3, 19, .plain 1), (20, 37, .plain 2)]
+
+example : ItemsOK exEnds 0 exItems (kwTrailer ++ [10]) := by
+  refine ⟨by decide, by decide, by decide, by decide, by decide, by decide,
+    ⟨.plain 1, by decide, by intro id k t h; cases h⟩, by decide, by decide, by decide,
+    by decide, by decide, by decide, ⟨.plain 2, by decide, by intro id k t h; cases h⟩,
+    by decide, by decide, by decide, trivial⟩
+
+example : scanSpec 0 exItems [] = [((1 : Int), (⟨none, 3, 0⟩ : Entry)), (12, ⟨none, 20, 0⟩)] := by decide
 
 /-! ## Locating `startxref`: independence of the read-buffer size -/
 
